@@ -14,7 +14,7 @@ import (
 // ---- C10: server connections end cleanly ------------------------------------
 
 type C10Handler struct {
-	Kind string `json:"kind"` // unary: ugate | uctx | uquick ; stream: srecv | sctx | ssend | sgate | secho
+	Kind string `json:"kind"` // unary: ugate | uctx | uquick ; stream: srecv | sctx | ssend | sgate | secho | srst (reset by the caller, handler slow to leave)
 }
 
 type C10Case struct {
@@ -26,7 +26,7 @@ type C10Case struct {
 }
 
 var c10Unary = []string{"ugate", "uctx", "uquick"}
-var c10Stream = []string{"srecv", "sctx", "ssend", "sgate", "secho"}
+var c10Stream = []string{"srecv", "sctx", "ssend", "sgate", "secho", "srst"}
 
 func genC10(t *rapid.T) C10Case {
 	c := C10Case{Ser: rapid.Bool().Draw(t, "ser")}
@@ -141,6 +141,14 @@ func execC10(t *testing.T, c C10Case) (v Verdict) {
 					sched.Park(nil, "gate-"+name) // ignores its context
 					return nil
 				})
+			case "srst":
+				svc.Stream(name, true, true, func(s grpcServerStream) error {
+					enter(s.Context())
+					defer leave()
+					<-s.Context().Done()          // the caller resets this stream ...
+					sched.Park(nil, "gate-"+name) // ... and the handler takes its time to leave
+					return s.Context().Err()
+				})
 			case "secho":
 				svc.Stream(name, true, true, func(s grpcServerStream) error {
 					enter(s.Context())
@@ -174,6 +182,10 @@ func execC10(t *testing.T, c C10Case) (v Verdict) {
 				e.Body, e.Wrap = &body, true
 			}
 			_ = l.A.Write(context.Background(), e.Build(uint64(i+1), kit.FullMethod(fmt.Sprintf("h%d", i)), "c0", kit.ServerName))
+			if h.Kind == "srst" {
+				e2 := kit.EnvSpec{Reset: "RST_STREAM"}
+				_ = l.A.Write(context.Background(), e2.Build(uint64(i+1), kit.FullMethod(fmt.Sprintf("h%d", i)), "c0", kit.ServerName))
+			}
 			if h.Kind == "secho" || h.Kind == "srecv" {
 				e2 := kit.EnvSpec{Body: &body, Wrap: true}
 				_ = l.A.Write(context.Background(), e2.Build(uint64(i+1), kit.FullMethod(fmt.Sprintf("h%d", i)), "c0", kit.ServerName))
@@ -211,7 +223,7 @@ func execC10(t *testing.T, c C10Case) (v Verdict) {
 		anyStreamGateParked := false
 		mu.Lock()
 		for i, h := range c.Handlers {
-			if h.Kind == "sgate" && obs[i].started && !obs[i].exited {
+			if (h.Kind == "sgate" || h.Kind == "srst") && obs[i].started && !obs[i].exited {
 				anyStreamGateParked = true
 			}
 		}
@@ -220,7 +232,7 @@ func execC10(t *testing.T, c C10Case) (v Verdict) {
 			// Serve must be waiting for the stream handler that ignores its context
 			serveReturnedBeforeGates = done
 			for i, h := range c.Handlers {
-				if h.Kind == "sgate" {
+				if h.Kind == "sgate" || h.Kind == "srst" {
 					sched.ReleaseGate(fmt.Sprintf("gate-h%d", i))
 				}
 			}
